@@ -2,6 +2,8 @@
 package main
 
 import (
+	"runtime/debug"
+	"runtime"
 	"bytes"
 	"crypto/tls"
 	"encoding/binary"
@@ -357,10 +359,16 @@ func segmentation(rep *kit.Report, seeds [][]byte) {
 			other := record(seeds[si+1])
 			rep.Eval(1)
 			var got []string
+			// (buffers come from a sync.Pool: with one processor and no collection in between, the next connection gets
+			// the buffer the previous one gave back, which is the reuse this sequence is about)
+			procs := runtime.GOMAXPROCS(1)
+			gc := debug.SetGCPercent(-1)
 			_, pv := safely(func() string {
 				got = httpserver.VerifRecordHellos([][][]byte{{rec}, {other}, {rec[:5], rec[5:]}}, cfg)
 				return ""
 			})
+			debug.SetGCPercent(gc)
+			runtime.GOMAXPROCS(procs)
 			if pv != nil {
 				rep.Violation("C19/segmentation/panic", fmt.Sprint(pv), c19case{"connection sequence with two hellos", fmt.Sprintf("seed %d", si), fmt.Sprint(pv), ""})
 			} else {
